@@ -36,20 +36,6 @@ def load_linalg(mutant):
     import inspect
     import types
     src = inspect.getsource(L)
-    pivot = (
-        "    for rrcol in range(0, colrange):\n"
-        "        for rr in range(rrcol + 1, eqns):\n",
-        "    for rrcol in range(0, colrange):\n"
-        "        bigrow = rrcol\n"
-        "        for row in range(rrcol + 1, eqns):\n"
-        "            if abs(m[nt*row + rrcol]) > abs(m[nt*bigrow + rrcol]):\n"
-        "                bigrow = row\n"
-        "        if bigrow != rrcol:\n"
-        "            for j in range(augCol):\n"
-        "                temp = m[nt*rrcol + j]\n"
-        "                m[nt*rrcol + j] = m[nt*bigrow + j]\n"
-        "                m[nt*bigrow + j] = temp\n"
-        "        for rr in range(rrcol + 1, eqns):\n")
     reltol = [
         ("    rr, rrcol, rb, rbr, kup, kupr, kleft, kleftr = "
          "declare('int', 8)\n",
@@ -62,12 +48,14 @@ def load_linalg(mutant):
          "                big = abs(m[nt*i + j])\n"),
         ("            if abs(dnr) < 1e-12:\n",
          "            if abs(dnr) <= 1e-14*big:\n")]
-    if mutant == 'pivot-fix':
-        # the proposed repair: search and exchange rows inside elimination
-        edits = [pivot]
-    elif mutant == 'full-fix':
-        # ... and a singularity threshold relative to the matrix
-        edits = [pivot] + reltol
+    if mutant == 'no-exchange':
+        # undo the repair of C13-no-pivoting: the row search stays, the
+        # exchange is skipped
+        edits = [('        if bigrow != rrcol:\n', '        if False:\n')]
+    elif mutant == 'reltol-fix':
+        # proposed repair of C13-abs-pivot-tol: a singularity threshold
+        # relative to the largest entry of the matrix
+        edits = reltol
     elif mutant == 'matmul-transposed':
         edits = [('a[n*i + j] * b[n*j + k]', 'a[n*i + j] * b[n*k + j]')]
     elif mutant == 'backsub-sign':
